@@ -44,6 +44,8 @@ def skip_profile(f: FuncInfo) -> Dict[str, object]:
             b = getattr(blk, fld, None)
             if isinstance(b, list) and any(n is x for x in b):
                 for st in b:
+                    if isinstance(st, (ast.If, ast.For, ast.While, ast.With, ast.Try, ast.FunctionDef, ast.ClassDef)) and st is not n:
+                        continue  # what a nested block records does not make the statements after it an error path
                     for c in ast.walk(st):
                         if isinstance(c, ast.Call):
                             d = ast.unparse(c.func)
